@@ -751,7 +751,14 @@ impl Expression {
                         let mut num = 0i64;
                         loop {
                             let d = ps.next().unwrap() as i64 - '0' as i64;
-                            num = num * 8 + d;
+                            let Some(n) = num.checked_mul(8).and_then(|x| x.checked_add(d)) else {
+                                // too large for an integer literal
+                                ps.add_warning_at_current_position(
+                                    ParseErrorKind::UnexpectedExpressionCharacter,
+                                );
+                                return None;
+                            };
+                            num = n;
                             let Some(peek) = ps.peek::<0>() else { break };
                             if !is_ident_char(peek) {
                                 break;
@@ -774,8 +781,8 @@ impl Expression {
                         let mut num = 0i64;
                         let peek = ps.peek::<0>()?;
                         if !('0'..='9').contains(&peek)
-                            && !('a'..='z').contains(&peek)
-                            && !('A'..='Z').contains(&peek)
+                            && !('a'..='f').contains(&peek)
+                            && !('A'..='F').contains(&peek)
                         {
                             ps.add_warning_at_current_position(
                                 ParseErrorKind::UnexpectedExpressionCharacter,
@@ -803,14 +810,21 @@ impl Expression {
                                 'f' | 'F' => 15,
                                 _ => unreachable!(),
                             };
-                            num = num * 16 + d;
+                            let Some(n) = num.checked_mul(16).and_then(|x| x.checked_add(d)) else {
+                                // too large for an integer literal
+                                ps.add_warning_at_current_position(
+                                    ParseErrorKind::UnexpectedExpressionCharacter,
+                                );
+                                return None;
+                            };
+                            num = n;
                             let Some(peek) = ps.peek::<0>() else { break };
                             if !is_ident_char(peek) {
                                 break;
                             }
                             if !('0'..='9').contains(&peek)
-                                && !('a'..='z').contains(&peek)
-                                && !('A'..='Z').contains(&peek)
+                                && !('a'..='f').contains(&peek)
+                                && !('A'..='F').contains(&peek)
                             {
                                 ps.add_warning_at_current_position(
                                     ParseErrorKind::UnexpectedExpressionCharacter,
@@ -842,7 +856,8 @@ impl Expression {
             }
 
             // parse as normal DEC
-            let mut int = Some(0);
+            let mut int = Some(0i64);
+            let mut int_overflow = false;
             loop {
                 let next = ps.next().unwrap();
                 if next == 'e' {
@@ -876,7 +891,11 @@ impl Expression {
                     // '0'..='9'
                     if let Some(x) = int.as_mut() {
                         let d = next as i64 - '0' as i64;
-                        *x = *x * 10 + d;
+                        match x.checked_mul(10).and_then(|x| x.checked_add(d)) {
+                            Some(n) => *x = n,
+                            // does not fit in an integer: parse it as a float at the end
+                            None => int_overflow = true,
+                        }
                     }
                 }
                 let Some(peek) = ps.peek::<0>() else { break };
@@ -892,7 +911,7 @@ impl Expression {
                     return None;
                 }
             }
-            let num = match int {
+            let num = match int.filter(|_| !int_overflow) {
                 None => {
                     let Ok(num) = ps.code_slice(start_index..ps.cur_index()).parse::<f64>() else {
                         ps.add_warning_at_current_position(
